@@ -334,6 +334,7 @@ sqf::runtime::runtime::result sqf::runtime::runtime::execute(sqf::runtime::runti
             m_is_exit_requested = false;
             m_is_halt_requested = false;
             m_run_timestamp = std::chrono::system_clock::now(); // max_runtime counts from the start of this run
+            select_step_context();
             if (m_contexts.empty()) { res = result::empty; } // nothing loaded: the run is `empty`, not `invalid`
             if (!m_context_active && !m_contexts.empty()) { m_context_active = m_contexts.front(); } // nothing ran yet
             auto scopeNum = m_context_active ? m_context_active->frames_size() - 1 : 0;
@@ -522,6 +523,7 @@ sqf::runtime::runtime::result sqf::runtime::runtime::execute(sqf::runtime::runti
             m_is_exit_requested = false;
             m_is_halt_requested = false;
             m_run_timestamp = std::chrono::system_clock::now(); // max_runtime counts from the start of this run
+            select_step_context();
             if (m_contexts.empty()) { res = result::empty; } // nothing loaded: the run is `empty`, not `invalid`
             SQFVM_VERIF_POINT("assembly_step.set_running");
             m_state = state::running;
@@ -571,6 +573,7 @@ sqf::runtime::runtime::result sqf::runtime::runtime::execute(sqf::runtime::runti
             m_is_exit_requested = false;
             m_is_halt_requested = false;
             m_run_timestamp = std::chrono::system_clock::now(); // max_runtime counts from the start of this run
+            select_step_context();
             if (m_contexts.empty()) { res = result::empty; } // nothing loaded: the run is `empty`, not `invalid`
             bool success;
             m_state = state::running;
